@@ -150,19 +150,24 @@ AppendedTable(t, o, nc) ==
     ELSE [header |-> <<nc>> \o t.header,
           rows   |-> Map(t.rows, LAMBDA r : <<S(t.title)>> \o r) \o Map(orows, LAMBDA r : <<S(o.title)>> \o r)]
 
-(* ---- inner_join(other, columns_self=ks, columns_other=ko), cross_join(other) ---- *)
-Prefixed(cols) == Map(cols, LAMBDA c : "right_" \o c)
+(* ---- inner_join(other, columns_self=ks, columns_other=ko, col_prefix=px), cross_join(other, col_prefix=px) ---- *)
+(* Rows are records: every cell is fetched by column NAME (KeyOf), so the answers do not depend on   *)
+(* the column order of either operand (an index column sits first in its own table's header).        *)
+PrefixedBy(cols, px) == Map(cols, LAMBDA c : px \o c)
+Prefixed(cols) == PrefixedBy(cols, "right_")
 
-InnerJoinTable(t, o, ks, ko) ==
+InnerJoinTableP(t, o, ks, ko, px) ==
     LET mask == SelectSeq(o.header, LAMBDA c : c \notin Range(ko))
         Matches(r) == Map(SelectSeq(o.rows, LAMBDA q : KeyOf(o, ko, q) = KeyOf(t, ks, r)),
                           LAMBDA q : r \o KeyOf(o, mask, q))
-    IN [header |-> t.header \o Prefixed(mask),
+    IN [header |-> t.header \o PrefixedBy(mask, px),
         rows   |-> FoldLeft(LAMBDA acc, r : acc \o Matches(r), <<>>, t.rows)]
+InnerJoinTable(t, o, ks, ko) == InnerJoinTableP(t, o, ks, ko, "right_")
 
-CrossJoinTable(t, o) ==
-    [header |-> t.header \o Prefixed(o.header),
+CrossJoinTableP(t, o, px) ==
+    [header |-> t.header \o PrefixedBy(o.header, px),
      rows   |-> FoldLeft(LAMBDA acc, r : acc \o Map(o.rows, LAMBDA q : r \o q), <<>>, t.rows)]
+CrossJoinTable(t, o) == CrossJoinTableP(t, o, "right_")
 
 (* natural join: joined(other) uses the columns the two headers share, paired by name *)
 Shared(t, o) == SelectSeq(t.header, LAMBDA c : c \in Range(o.header))
@@ -198,8 +203,17 @@ Names(sc) == Map(sc, LAMBDA e : e[1])
 Doms(sc)  == Map(sc, LAMBDA e : e[2])
 
 TablesOf(sc, lo, hi, title) ==
-    {[header |-> Names(sc), rows |-> rs, title |-> title] :
+    {[header |-> Names(sc), rows |-> rs, title |-> title, index |-> ""] :
         rs \in UNION {[1..n -> Prod(Doms(sc))] : n \in lo..hi}}
+
+(* a table whose index_name is c: the index column is the first column of the object, *)
+(* every row is re-ordered with the header                                            *)
+WithIndex(t, c) ==
+    IF c = "" THEN t
+    ELSE LET h2 == <<c>> \o SelectSeq(t.header, LAMBDA x : x # c) IN
+         [t EXCEPT !.header = h2, !.rows = Map(t.rows, LAMBDA r : KeyOf(t, h2, r)), !.index = c]
+IndexChoices(t) ==
+    {""} \cup {c \in Range(t.header) : Len(t.rows) >= 1 /\ Unique(t, c) /\ None \notin Range(Col(t, c))}
 
 (* <<schema, largest number of rows>> *)
 UnarySchemas ==
@@ -232,6 +246,10 @@ PairRowBudget == IF Profile = "quick" THEN 4 ELSE 5
 
 BinaryPairs(profile) == {p \in TablesOf(LeftSchema, 0, PairMaxRows, T1) \X TablesOf(RightSchema, 0, PairMaxRows, T2) :
                    Len(p[1].rows) + Len(p[2].rows) <= PairRowBudget}
+(* each operand: no index, index on the first column, index on a later column (where values are unique) *)
+IndexedRowBudget == 4
+IndexPairs(p) == IF Len(p[1].rows) + Len(p[2].rows) <= IndexedRowBudget
+                 THEN IndexChoices(p[1]) \X IndexChoices(p[2]) ELSE {<<"", "">>}
 
 (* tables too large for the small-n insertion sort: ties are the point *)
 BigSizes == IF Profile = "quick" THEN {16, 17, 40} ELSE {16, 17, 20, 33, 40, 64, 100}
@@ -240,7 +258,7 @@ BigTable(n, m) ==
      rows   |-> [i \in 1..n |-> <<I(DecText((7 * i * i + 3 * i + m) % 3)),
                                   S(IF (i * i + m) % 2 = 0 THEN sA ELSE sB),
                                   I(DecText(i))>>],
-     title  |-> T1]
+     title  |-> T1, index |-> ""]
 BigTables(profile) == {BigTable(n, m) : n \in BigSizes, m \in 0..1}
 
 -----------------------------------------------------------------------------
@@ -294,6 +312,13 @@ SortClass(t, cols, rev) ==
     \cup TagIf(\E d \in rev : TypeOfCol(t, d) = "s" /\ HasPrefixPair(t, d), "rev-str-prefix-pair")
     \cup TagIf(Len(t.rows) > 16, "more-than-16-rows")
 PairClass(t, o) == TagIf(Len(t.rows) = 0, "left-zero-rows") \cup TagIf(Len(o.rows) = 0, "right-zero-rows")
+(* the result of appended / inner_join keeps the receiver's index_name: does the result still have unique index values? *)
+IndexDupClass(t, result) ==
+    TagIf(t.index # "" /\ Cardinality(Range(Col(result, t.index))) # Len(result.rows), "result-index-not-unique")
+SharedOrderClass(t, o) ==
+    TagIf(SelectSeq(t.header, LAMBDA c : c \in Range(o.header)) # SelectSeq(o.header, LAMBDA c : c \in Range(t.header)),
+          "shared-columns-order-differs")
+PrefixClass(px) == TagIf(px # "right_", "custom-prefix")
 
 -----------------------------------------------------------------------------
 (* Actions: one per public call; T versions are pure, the others also emit    *)
@@ -321,28 +346,41 @@ WithNewColumn(f)  == WithNewColumnT(f) /\ Log("WithNewColumn", <<"n", f>>, SizeC
 TransposedT(sel) == Once(IF Unique(tab, sel) THEN TransposedTable(tab, "n", sel) ELSE [raised |-> TRUE])
 Transposed(sel)  == TransposedT(sel) /\ Log("Transposed", <<"n", sel>>, SizeClass(tab))
 
-AppendedT(nc) == Once(AppendedTable(tab, oth, nc))
-Appended(nc)  == AppendedT(nc) /\ Log("Appended", <<nc>>, PairClass(tab, oth))
+InnerJoinT(ks, ko, px) == Once(InnerJoinTableP(tab, oth, ks, ko, px))
+InnerJoin(ks, ko, px)  == InnerJoinT(ks, ko, px) /\
+    Log("InnerJoin", <<ks, ko, px>>, IndexDupClass(tab, InnerJoinTableP(tab, oth, ks, ko, px)))
 
-InnerJoinT(ks, ko) == Once(InnerJoinTable(tab, oth, ks, ko))
-InnerJoin(ks, ko)  == InnerJoinT(ks, ko) /\ Log("InnerJoin", <<ks, ko>>, PairClass(tab, oth))
+NaturalJoinOf(t, o, px) == InnerJoinTableP(t, o, Shared(t, o), Shared(t, o), px)
+NaturalJoinT(px) == Once(NaturalJoinOf(tab, oth, px))
+NaturalJoin(px)  == NaturalJoinT(px) /\
+    Log("NaturalJoin", <<px>>, IndexDupClass(tab, NaturalJoinOf(tab, oth, px)) \cup SharedOrderClass(tab, oth))
 
-NaturalJoinT == Once(InnerJoinTable(tab, oth, Shared(tab, oth), Shared(tab, oth)))
-NaturalJoin  == NaturalJoinT /\ Log("NaturalJoin", <<>>, PairClass(tab, oth))
+CrossJoinT(px) == Once(CrossJoinTableP(tab, oth, px))
+CrossJoin(px)  == CrossJoinT(px) /\ Log("CrossJoin", <<px>>, PrefixClass(px))
 
-CrossJoinT == Once(CrossJoinTable(tab, oth))
-CrossJoin  == CrossJoinT /\ Log("CrossJoin", <<>>, PairClass(tab, oth))
-
-(* appended needs the same column set; the right table's columns renamed t -> s gives a permuted header *)
-Renamed(o) == [o EXCEPT !.header = Map(o.header, LAMBDA c : IF c = "t" THEN "s" ELSE c)]
+(* appended needs the same column set: the right table with column t renamed s has the columns of the *)
+(* left table in another order (and its index column, if any, first)                                 *)
+Ren(c) == IF c = "t" THEN "s" ELSE c
+Renamed(o) == [o EXCEPT !.header = Map(o.header, Ren), !.index = Ren(o.index)]
 AppendedPermT(nc) == Once(AppendedTable(tab, Renamed(oth), nc))
-AppendedPerm(nc)  == AppendedPermT(nc) /\ Log("AppendedRenamed", <<nc>>, PairClass(tab, oth))
+AppendedPerm(nc)  == AppendedPermT(nc) /\
+    Log("AppendedRenamed", <<nc>>, PairClass(tab, oth) \cup IndexDupClass(tab, AppendedTable(tab, Renamed(oth), nc)))
+
+(* natural join of two tables that share BOTH columns, in different orders *)
+NaturalJoinRenamedT(px) == Once(NaturalJoinOf(tab, Renamed(oth), px))
+NaturalJoinRenamed(px)  == NaturalJoinRenamedT(px) /\
+    Log("NaturalJoinRenamed", <<px>>, IndexDupClass(tab, NaturalJoinOf(tab, Renamed(oth), px))
+                                      \cup SharedOrderClass(tab, Renamed(oth)))
 
 Init == /\ res = [init |-> TRUE]
         /\ done = FALSE
         /\ CASE Group = "unary"  -> tab \in UnaryTables(Profile) /\ oth = "-"
              [] Group = "big"    -> tab \in BigTables(Profile) /\ oth = "-"
-             [] Group = "binary" -> \E p \in BinaryPairs(Profile) : tab = p[1] /\ oth = p[2]
+             [] Group = "binary" -> \E p \in BinaryPairs(Profile) : \E ix \in IndexPairs(p) :
+                                        tab = WithIndex(p[1], ix[1]) /\ oth = WithIndex(p[2], ix[2])
+
+(* a custom col_prefix is tried on the operand pairs without an index *)
+ColPrefixes(t, o) == IF t.index = "" /\ o.index = "" THEN {"right_", "p_"} ELSE {"right_"}
 
 Step == \/ /\ Group \in {"unary", "big"}
            /\ Len(tab.rows) >= 1                     \* "at least one row for sorting"
@@ -353,10 +391,11 @@ Step == \/ /\ Group \in {"unary", "big"}
               \/ \E f \in Derivations(tab) : WithNewColumn(f)
               \/ \E sel \in Range(tab.header) : Transposed(sel)
         \/ /\ Group = "binary"
-           /\ \/ \E k \in JoinKeys(tab, oth) : InnerJoin(k[1], k[2])
-              \/ NaturalJoin
-              \/ CrossJoin
-              \/ \E nc \in {"", "z"} : AppendedPerm(nc)
+           /\ \E px \in ColPrefixes(tab, oth) :
+                 \/ \E k \in JoinKeys(tab, oth) : InnerJoin(k[1], k[2], px)
+                 \/ NaturalJoin(px) \/ NaturalJoinRenamed(px)
+                 \/ CrossJoin(px)
+                 \/ px = "right_" /\ \E nc \in {"", "z"} : AppendedPerm(nc)
 
 CheckLaws == Once([laws |-> TRUE])
 
